@@ -108,6 +108,140 @@ def select_2pos(a01: bool, a02: bool, a10: bool, a12: bool, a20: bool, a21: bool
     return H.done(agree(fam, False))
 
 
+# ------------------------------------------------------------------ binding of one call to one signature
+SIGS = H.P('sigs', [])
+KWNAMES = [None, 'p0', 'p1', 'p2', 'k0', 'zz']
+BADS = [None, 'pos-str', 'kw-null', 'kw-bool']
+
+
+def build_call(nargs, mask, ka, kb, bad):
+    from yaql.language import utils
+    args = []
+    for i in range(nargs):
+        args.append(utils.NO_VALUE if (mask >> i) & 1 else 11 + i)
+    kwargs = {}
+    for j, k in enumerate((ka, kb)):
+        if k:
+            kwargs[KWNAMES[k]] = 21 + j
+    if bad == 1 and args and args[0] is not utils.NO_VALUE:
+        args[0] = 'x'
+    if bad in (2, 3) and kwargs:
+        first = sorted(kwargs)[0]
+        kwargs[first] = None if bad == 2 else True
+    return args, kwargs
+
+
+def bind_outcome(si, nargs, mask, ka, kb, bad):
+    from props import c05_bind as B
+    shape, hidden = B.CATALOGUE[si]
+    args, kwargs = build_call(nargs, mask, ka, kb, bad)
+    exp = B.ref_bind(shape, args, kwargs)
+    got = B.real_bind(si, args, kwargs)
+    return exp, got, args, kwargs
+
+
+NM = [(n, m) for n in range(4) for m in range(2 ** n)]                      # 15 (nargs, empty-slot mask) pairs
+KK = [(ka, kb) for ka in range(6) for kb in range(6) if ka < kb or kb == 0]   # 16 keyword pairs
+SIGBOX = [(i,) for i in SIGS]
+N4 = [(i,) for i in range(4)]
+
+
+def bind_check(si, nargs, mask, ka, kb, bad):
+    exp, got, args, kwargs = bind_outcome(si, nargs, mask, ka, kb, bad)
+    if exp == 'UNSPEC':
+        return True
+    if exp == 'SKIP-IN-VARARGS':
+        return True if 'C05/empty-slot-in-varargs-leaks-marker' in KNOWN else (got is None)
+    return got == exp
+
+
+def bind_shape(s: int, n: int, k: int) -> bool:
+    """
+    pre: 0 <= s < len(SIGBOX) and 0 <= n < len(NM) and 0 <= k < len(KK)
+    post: _
+    """
+    si, nm, kk = SIGBOX[s][0], NM[n], KK[k]     # small tables of tuples indexed under tracing: one path per combination
+    with H.NoTracing():
+        ok = bind_check(si, nm[0], nm[1], kk[0], kk[1], 0)
+    return H.done(ok)
+
+
+def bind_bad(s: int, n: int, k: int, b: int) -> bool:
+    """
+    pre: 0 <= s < len(SIGBOX) and 0 <= n < 4 and 0 <= k < len(KK) and 1 <= b < 4
+    post: _
+    """
+    si, nargs, kk, bad = SIGBOX[s][0], N4[n][0], KK[k], N4[b][0]
+    with H.NoTracing():
+        ok = bind_check(si, nargs, 0, kk[0], kk[1], bad)
+    return H.done(ok)
+
+
+BOX = [(i,) for i in range(8)]
+
+
+def probe_skip_in_varargs(x: int) -> bool:
+    """
+    pre: 0 <= x < 2
+    post: _
+    """
+    from props import c05_bind as B
+    from yaql.language import utils
+    shape = [('p0', 'pos', False), ('rest', 'var', False)]
+    idx = [i for i, (sh, hid) in enumerate(B.CATALOGUE) if sh == shape and hid is None][0]
+    with H.NoTracing():
+        got = B.real_bind(idx, [1, utils.NO_VALUE, 3] if BOX[x][0] == 0 else [1, 2, utils.NO_VALUE], {})
+    return H.done(got is None)
+
+
+# ------------------------------------------------------------------ kind filter and layering on real contexts
+def layering(f0: bool, m0: bool, f1: bool, m1: bool, f2: bool, m2: bool,
+             e0: bool, e1: bool, e2: bool, recv: bool) -> bool:
+    """
+    pre: (f0 or m0) and (f1 or m1) and (f2 or m2)
+    post: _
+    """
+    from yaql.language import contexts, exceptions, specs, utils
+    from props import c05_bind as B
+    isf, ism, excl = [f0, f1, f2], [m0, m1, m2], [e0, e1, e2]
+    layers = list(LAYERS)
+    nl = max(layers) + 1
+    chain = []
+    parent = B.ROOT
+    for lv in range(nl - 1, -1, -1):          # farthest layer first
+        parent = contexts.Context(parent)
+        chain.insert(0, parent)
+    for i in range(3):
+        def payload(x, _i=i):
+            return ('ran', _i)
+        fd = specs.get_function_definition(payload, name='f')
+        fd.is_function, fd.is_method = isf[i], ism[i]
+        chain[layers[i]].register_function(fd, exclusive=excl[layers[i]])
+    try:
+        if recv:
+            got = chain[0]('f', B.ENG, receiver=1)()
+        else:
+            got = chain[0]('f', B.ENG)(1)
+    except (exceptions.NoFunctionRegisteredException, exceptions.NoMethodRegisteredException,
+            exceptions.AmbiguousFunctionException, exceptions.AmbiguousMethodException) as e:
+        got = type(e).__name__
+    # reference: documented rules 1, 2, 6, 7
+    visible = []
+    for lv in range(nl):
+        vis = [i for i in range(3) if layers[i] == lv and (ism[i] if recv else isf[i])]
+        if vis:
+            visible.append(vis)
+        if any(excl[lv] for i in range(3) if layers[i] == lv):
+            break
+    if not visible:
+        exp = 'NoMethodRegisteredException' if recv else 'NoFunctionRegisteredException'
+    elif len(visible[0]) == 1:
+        exp = ('ran', visible[0][0])
+    else:
+        exp = 'AmbiguousMethodException' if recv else 'AmbiguousFunctionException'
+    return H.done(got == exp)
+
+
 PATTERNS = [[0, 0, 0], [0, 0, 1], [0, 1, 1], [0, 1, 2]]
 
 
@@ -123,6 +257,31 @@ def conditions(tier, seed):
             out.append({'name': 'select_flags' + tag, 'func': 'select_flags', 'timeout': t,
                         'param': {'recv': recv, 'layers': layers},
                         'bounds': '3 candidates in layers %s, symbolic map/delegate/lazy/no_kwargs answers' % layers})
+    from props import c05_bind as B
+    import random
+    rnd = random.Random(seed)
+    core = [i for i, (sh, hid) in enumerate(B.CATALOGUE)
+            if sum(1 for p in sh if p[1] == 'pos') == 2 and hid in (None, 1) and sum(1 for p in sh if p[1] == 'pos' and p[2]) == 1]
+    rest = [i for i in range(len(B.CATALOGUE)) if i not in core]
+    rnd.shuffle(rest)
+    chosen = core[:8] + rest[:(4 if tier == 'quick' else 172)]
+    per = 4
+    for g in range(0, len(chosen), per):
+        sigs = chosen[g:g + per]
+        for fn in ('bind_shape', 'bind_bad'):
+            out.append({'name': '%s[sigs=%s]' % (fn, ','.join(map(str, sigs))), 'func': fn, 'timeout': 400,
+                        'param': {'sigs': sigs},
+                        'bounds': 'signatures %s of the catalogue (%s ...); calls with <=3 positional arguments, any of '
+                                  'them an empty slot, <=2 keywords from p0,p1,p2,k0,zz, one ill-typed value; selectors '
+                                  'only: each path is one concrete call' % (sigs, B.context_for(sigs[0])[1])})
+    if 'C05/empty-slot-in-varargs-leaks-marker' in KNOWN:
+        out.append({'name': 'probe[empty-slot-in-varargs]', 'func': 'probe_skip_in_varargs', 'timeout': 60, 'kind': 'probe',
+                    'param': {'probe_key': 'C05/empty-slot-in-varargs-leaks-marker'}, 'bounds': 'f(1,,3) and f(1,2,) against def f(p0, *rest)'})
+    for layers in PATTERNS:
+        out.append({'name': 'layering[layers=%s]' % ''.join(map(str, layers)), 'func': 'layering', 'timeout': t,
+                    'param': {'layers': layers},
+                    'bounds': '3 overloads in real contexts (layers %s) with symbolic function/method/extension kinds, '
+                              'symbolic exclusive flags per layer, call with or without receiver' % layers})
     for layers in (PATTERNS[:1] if tier == 'quick' else PATTERNS):
         out.append({'name': 'select_2pos[layers=%s]' % ''.join(map(str, layers)), 'func': 'select_2pos', 'timeout': 2 * t,
                     'param': {'layers': layers},
@@ -143,6 +302,35 @@ def replay(cond, args):
         S = [X.mat3(a['a01'], a['a02'], a['a10'], a['a12'], a['a20'], a['a21']),
              X.mat3(a['b01'], a['b02'], a['b10'], a['b12'], a['b20'], a['b21'])]
         fam = (3, 2, S, [True, True, True], [True, True, a['d2']], [[False, False]] * 3, [False] * 3, list(LAYERS))
+    elif f in ('bind_shape', 'bind_bad'):
+        from props import c05_bind as B
+        si = SIGS[a['s']]
+        if f == 'bind_shape':
+            (nargs, mask), (ka, kb), bad = NM[a['n']], KK[a['k']], 0
+        else:
+            nargs, mask, (ka, kb), bad = a['n'], 0, KK[a['k']], a['b']
+        exp, got, cargs, ckw = bind_outcome(si, nargs, mask, ka, kb, bad)
+        src = B.context_for(si)[1]
+        shown = ['_' if x is B.utils.NO_VALUE else x for x in cargs]
+        if exp == 'UNSPEC' or got == exp:
+            return {'reproduced': False}
+        if exp == 'SKIP-IN-VARARGS':
+            return {'reproduced': got is not None, 'key': 'C05/empty-slot-in-varargs-leaks-marker',
+                    'what': '%s called with %r %r: empty slot in the *args region reaches the payload as %r' % (src, shown, ckw, got)}
+        return {'reproduced': True, 'key': 'C05/binding/%s' % src,
+                'what': '%s called with positional %r keywords %r: yaql binds %r, python-signature binding gives %r' % (
+                    src, shown, ckw, got, exp)}
+    elif f == 'layering':
+        ok = layering(**a)
+        return {'reproduced': not ok, 'key': 'C05/layering', 'what': 'kind filter / layering differs from the rules for %r layers %r' % (a, LAYERS)}
+    elif f == 'probe_skip_in_varargs':
+        from props import c05_bind as B
+        from yaql.language import utils
+        shape = [('p0', 'pos', False), ('rest', 'var', False)]
+        idx = [i for i, (sh, hid) in enumerate(B.CATALOGUE) if sh == shape and hid is None][0]
+        got = B.real_bind(idx, [1, utils.NO_VALUE, 3] if a['x'] == 0 else [1, 2, utils.NO_VALUE], {})
+        return {'reproduced': got is not None, 'key': 'C05/empty-slot-in-varargs-leaks-marker',
+                'what': 'def f(p0, *rest) called as f(1,,3): payload receives %r' % (got,)}
     else:
         return {'reproduced': False, 'error': 'no replay for ' + f}
     order = X.PERMS3[0]
